@@ -1,9 +1,9 @@
 SPECIFICATION Spec
 CONSTANTS
-  WSizes = {0, 2}
+  WSizes = {0, 1}
   RSizes = {0, 1}
   Chunks = {1, 999}
-  MaxBytes = 2
+  MaxBytes = 1
   AllowClose = FALSE
   AllowBreak = FALSE
   Defects = {"NoFlush"}
